@@ -68,12 +68,17 @@ func checkC01(c *Ctx, r *Report) {
 			continue
 		}
 		c01Encoder(c, r, er, id, tcp, false)
+		if tcp {
+			r.instance("R1.5", 1)
+			c01ConstProtocol(c, r, "R1.5", m)
+		}
 	}
+	r.floor("R1.5", 10)
 	// R1.4 coil packing
 	pack := c.fnMust("packet", "CoilsToBytes")
 	r.instance("R1.4", 1)
 	c01Packing(c, r, pack)
-	r.assumption("encoders are analysed under their constructor's success state; hand-built structs that bypass the constructors are outside \"agrees to construct\"")
+	r.assumption("encoders are analysed under their constructor's success state (R1.5 alone also covers structs whose exported fields were changed afterwards); hand-built structs that bypass the constructors are otherwise outside \"agrees to construct\"")
 	r.assumption("CRC16 is uninterpreted here; its placement is C03's R3.1")
 	r.assumption("slice lengths are below 2^31; int is 64 bits wide")
 }
@@ -261,5 +266,52 @@ func init() {
 		r.controls["C01/R1.1-gap"] = has(run("GapTCP"), "R1.1:tiling")
 		r.controls["C01/R1.2-loose-limit"] = has(run("LooseLimitTCP"), "R1.2:limit")
 		r.controls["C01/R1.4-bit-position"] = has(c01Packing(c, nil, c.fnMust("c01", "PackMod7")), "bit=")
+	}
+}
+
+// c01ConstProtocol: R1.5 — the request types export their fields, so a caller can change them
+// after construction; the protocol identifier on the wire must not depend on that: for a fully
+// symbolic receiver (no constructor premise) every write that covers bytes 2..3 of a TCP frame
+// stores the constant 0.
+func c01ConstProtocol(c *Ctx, r *Report, rule string, m *ssa.Function) {
+	id := fnID(m)
+	pos := c.pos(m.Pos())
+	tn := m.Signature.Recv().Type().(*types.Named)
+	an := &Analysis{ctx: c, u: newUniverse(), top: m}
+	recv := an.u.symbolic("r", tn)
+	fr := runMethod(an, m, recv, dnfTrue())
+	if len(fr.returns) != 1 {
+		r.undecided(rule, id, "encoder does not have exactly one return", pos)
+		return
+	}
+	res, ok := fr.returns[0].vals[0].(ASlice)
+	if !ok || res.root == nil || !res.root.fresh {
+		r.undecided(rule, id, "encoder does not return a buffer it allocated", pos)
+		return
+	}
+	covered := 0
+	bad := ""
+	for _, w := range res.root.writes {
+		if !w.off.isConst() || !w.width.isConst() {
+			continue
+		}
+		lo, hi := w.off.c, w.off.c+w.width.c
+		if hi <= 2 || lo >= 4 {
+			continue
+		}
+		v, isI := w.val.(AInt)
+		if lo == 2 && hi == 4 && isI && v.a.isConst() && v.a.c == 0 && len(v.conds) == 0 {
+			covered++
+			continue
+		}
+		bad = fmt.Sprintf("write at %s stores %s into bytes %d..%d", w.pos, describeAV(w.val), lo, hi-1)
+	}
+	if bad == "" && covered > 0 {
+		r.ok(rule, id, "protocol identifier bytes 2..3 are the constant 0 whatever the struct's (exported) fields hold", pos, true)
+	} else {
+		if bad == "" {
+			bad = "no write covers bytes 2..3"
+		}
+		r.fail(rule, id, "the protocol identifier on the wire depends on the struct contents (or is not written as 0)", pos, bad, "protocol-id-not-constant")
 	}
 }
